@@ -53,8 +53,8 @@ var c11ListLens = []int{0, 1, 2, 23, 24, 25, 300}
 var c11ByteLens = []int{1, 0, 23, 24, 256, 70000}
 
 // c11Cids is the pool of distinct CIDs: CIDv1 dag-cbor sha2-256 (what the archive uses), CIDv1
-// dag-cbor sha2-512 (longer byte string), the identity CID radiance stores for "no rewards", and a
-// CIDv0.
+// dag-cbor sha2-512 (longer byte string), the identity CID radiance stores for "no rewards", a
+// CIDv0, and four 36-byte CIDv1s with another codec or hash function.
 var c11Cids = func() []cid.Cid {
 	mk := func(mh uint64, codec uint64, s string) cid.Cid {
 		c, err := cid.Prefix{Version: 1, Codec: codec, MhType: mh, MhLength: -1}.Sum([]byte(s))
@@ -69,6 +69,11 @@ var c11Cids = func() []cid.Cid {
 		mk(multihash.SHA2_512, cid.DagCBOR, "c11-b"),
 		cid.MustParse("bafkqaaa"),
 		cid.NewCidV0(v0h),
+		// 36-byte CIDv1s (same length as the archive's own) whose codec or hash function is not
+		// dag-cbor/sha2-256: a decoder fast path keyed on the length alone must not rewrite them
+		mk(multihash.SHA2_256, cid.Raw, "c11-raw"),
+		mk(multihash.SHA2_256, cid.DagProtobuf, "c11-pb"),
+		mk(multihash.SHA3_256, cid.DagCBOR, "c11-sha3"),
 	}
 }()
 
@@ -119,7 +124,11 @@ var c11Lists = func() []c11ListSpec {
 		}
 	}
 	// length 1 pointing at each of the other pool members
-	out = append(out, c11ListSpec{1, -1}, c11ListSpec{1, -2}, c11ListSpec{1, -3})
+	for k := 1; k < len(c11Cids); k++ {
+		out = append(out, c11ListSpec{1, -k})
+	}
+	// a longer list cycling through the whole pool
+	out = append(out, c11ListSpec{2 * len(c11Cids), len(c11Cids)})
 	return out
 }()
 
